@@ -21,12 +21,81 @@ ASSUMPTIONS = ["BufferedReader.peek/read semantics", "byte fidelity for every pa
 PROGRAM = "a816.program"
 
 
+class _NoOpRanges(ast.NodeTransformer):
+    """`x & (2^8w - 1)` and `min(max(x, 0), 2^8w - 1)` are x itself when x is a w-byte unsigned field of a struct.unpack result"""
+
+    def __init__(self, widths: dict[str, int]) -> None:
+        self.widths = widths  # local name / `name[i]` text -> field width in bytes
+        self.hits = 0
+
+    def _width(self, e: ast.AST) -> int | None:
+        return self.widths.get(unparse(e))
+
+    def visit_BinOp(self, node: ast.BinOp) -> ast.AST:
+        self.generic_visit(node)
+        if isinstance(node.op, ast.BitAnd):
+            for x, c in ((node.left, node.right), (node.right, node.left)):
+                w = self._width(x)
+                if w is not None and const_int(c) == (1 << (8 * w)) - 1:
+                    self.hits += 1
+                    return x
+        return node
+
+    def visit_Call(self, node: ast.Call) -> ast.AST:
+        self.generic_visit(node)
+        if call_name(node) == "min" and len(node.args) == 2:
+            for inner, c in ((node.args[0], node.args[1]), (node.args[1], node.args[0])):
+                if isinstance(inner, ast.Call) and call_name(inner) == "max" and len(inner.args) == 2:
+                    for x, z in ((inner.args[0], inner.args[1]), (inner.args[1], inner.args[0])):
+                        w = self._width(x)
+                        if w is not None and const_int(z) == 0 and const_int(c) == (1 << (8 * w)) - 1:
+                            self.hits += 1
+                            return x
+        return node
+
+
+def _field_widths(lp: ast.While) -> dict[str, int]:
+    out: dict[str, int] = {}
+    for s in walk_no_nested(lp):
+        if isinstance(s, ast.Assign) and len(s.targets) == 1 and unpack_call(s.value) is not None:
+            fmt, _src = unpack_call(s.value)  # type: ignore[misc]
+            if any(f[0] not in "BHIQ" for f in fmt.fields):
+                continue
+            t = s.targets[0]
+            if isinstance(t, ast.Name):
+                for i, f in enumerate(fmt.fields):
+                    out[f"{t.id}[{i}]"] = f[1]
+            elif isinstance(t, ast.Tuple) and len(t.elts) == len(fmt.fields):
+                for e, f in zip(t.elts, fmt.fields):
+                    if isinstance(e, ast.Name):
+                        out[e.id] = f[1]
+    # plain copies of a field (`size = words[0]`)
+    for s in walk_no_nested(lp):
+        if isinstance(s, ast.Assign) and len(s.targets) == 1 and isinstance(s.targets[0], ast.Name) and unparse(s.value) in out:
+            out.setdefault(s.targets[0].id, out[unparse(s.value)])
+    return out
+
+
 def _reader(ctx: Ctx):
     fn = ctx.repo.func(NODES, "IncludeIpsNode.__init__")
     loops = [n for n in walk_no_nested(fn.node) if isinstance(n, ast.While)]
     if len(loops) != 1:
         raise AnalysisError("IncludeIpsNode.__init__: expected one reader loop")
-    return fn, loops[0]
+    lp = loops[0]
+    if not getattr(lp, "_noop_ranges_done", False):
+        # a name re-bound to its own masked value (`n = min(max(n, 0), 0xFFFF)`) keeps its width
+        widths = _field_widths(lp)
+        tr = _NoOpRanges(widths)
+        new_body = []
+        for st in lp.body:
+            st2 = tr.visit(st)
+            if isinstance(st2, ast.Assign) and len(st2.targets) == 1 and unparse(st2.targets[0]) == unparse(st2.value):
+                continue  # `x = x` left over from a no-op clamp
+            new_body.append(st2)
+        lp.body = new_body
+        ast.fix_missing_locations(lp)
+        lp._noop_ranges_done = True  # type: ignore[attr-defined]
+    return fn, lp
 
 
 def _loop_env(lp: ast.While) -> dict[str, ast.AST]:
